@@ -29,6 +29,10 @@ def run(ctx):
         lines = open(t).read().splitlines()
         ctx.sample({"trace_excerpt": [json.loads(x) for x in lines[40:46]]})
         ctx.validate("PipelineTrace", t, keyfn, describe=describe, timeout=1800, require_events=60000)
+    # the UDP upstream with its TCP fall-back: what an exchange returns is a reply the server sent for it
+    t = ctx.path("fallback.ndjson")
+    ctx.driver(drv, ["-mode", "fallback", "-n", 400 if ctx.quick else 4000, "-out", t], timeout=900)
+    ctx.validate("FallbackTrace", t, keyfn, describe=describe, timeout=1800, require_events=800, only=["Inv_C05"])
     ctx.assumptions += [
         "schedules of the real code are sampled (32 concurrent exchanges, seeded server script); all interleavings are enumerated only in the bounded model",
         "the scripted server resolves a peer address to the client-side connection object owning that local address at that moment",
